@@ -156,8 +156,39 @@ def pointer_sessions(rng, n):
     return out
 
 
+def overrun_sessions(rng, n):
+    """A READ that fails with OUT OF DATA leaves the pointer at the end of the constants: when DATA lines are then added behind the
+    old ones, the next READ (without RUN, CLEAR or RESTORE) delivers the first new constant, however many READs failed before."""
+    out = []
+    for _ in range(n):
+        k = rng.randint(1, 3)
+        m = rng.randint(1, 3)
+        consts = [101 + i for i in range(k + m)]
+        lines = ["10 DATA " + ",".join(str(c) for c in consts[:k]), "30 READ A:PRINT A:GOTO 30"]
+        calls = ["R5000"] + [sess.E(l) for l in lines] + [sess.E("RUN"), "R5000"]
+        steps = ["RUN"]
+        expect = list(consts[:k])
+        for _ in range(rng.randint(0, 2)):
+            calls += [sess.E("READ C:PRINT C"), "R5000"]        # fails again, prints nothing
+            steps.append("READ C:PRINT C")
+        calls.append(sess.E("20 DATA " + ",".join(str(c) for c in consts[k:])))
+        steps.append("20 DATA " + ",".join(str(c) for c in consts[k:]))
+        if rng.random() < 0.5:
+            calls += [sess.E("GOTO 30"), "R5000"]
+            steps.append("GOTO 30")
+            expect += consts[k:]
+        else:
+            for c in consts[k:]:
+                calls += [sess.E("READ C:PRINT C"), "R5000"]
+                steps.append("READ C:PRINT C")
+                expect.append(c)
+        out.append(Case(sess.session(calls), sig="pointer: " + " / ".join(lines) + " ; " + " ; ".join(steps), tag="pointer-overrun",
+                        meta=("pointer", expect)))
+    return out
+
+
 def gen(tier, rng):
-    cases = pointer_sessions(rng, 150 if tier == "quick" else 4000)
+    cases = pointer_sessions(rng, 150 if tier == "quick" else 4000) + overrun_sessions(rng, 60 if tier == "quick" else 1500)
     n = 400 if tier == "quick" else 15000
     for _ in range(n):
         final, history = gen_program(rng)
